@@ -271,7 +271,15 @@ pub fn run_case(ctx: &mut Ctx, fam: &str, _k: u64, r: &mut Rng) {
             } else {
                 *r.pick(&live_ops)
             };
-            let seed = rand_seed(r, h.st.refv[start].v.len());
+            // seeds of very different magnitudes within one history: what an earlier, large pass left behind (a
+            // rounding carry, a pending value) must not show in a later, small one
+            let seed = match rand_seed(r, h.st.refv[start].v.len()) {
+                SeedMode::Ints(v) => {
+                    let mag = *r.pick(&[1.0, 1.0, 1.0, 1.0e3, 1.0e6]);
+                    SeedMode::Ints(v.iter().map(|x| x * mag).collect())
+                }
+                s => s,
+            };
             let via_clone = r.chance(1, 4);
             h.pass(start, &seed, via_clone, true);
         } else if c < 80 {
